@@ -539,6 +539,7 @@ func runC06(p *core.Prog, r *core.Report) {
 	r.Guard("C06.R1", "filter-query-receiver", "the module's own filter query", func() { checkFilterQueryReceiver(p, r, "C06.R1") })
 	r.Guard("C06.R1", "buffer-fresh", "hashed buffer holds this module only", func() { checkHashBufferFresh(p, r, "C06.R1") })
 	r.GuardExact("C06.R1", "kind-tags", "three kinds, three tags", func() { checkKindTagsDistinct(p, r, "C06.R1") })
+	r.GuardExact("C06.R1", "engine/package-graph", "the engine hashes over the package graph", func() { checkEngineHashesOverPackageGraph(p, r, "C06.R1") })
 	r.Guard("C06.R1", "input-order", "the order of the inputs is part of the identity", func() {
 		// "ordered inputs": for each input, in slice order, the hash receives something that tells WHICH module a map or
 		// store input refers to (its identifier), not only its kind; otherwise two inputs of the same kind can be swapped
